@@ -28,7 +28,7 @@ from translate import c18_table as T
 
 KNOWN = {
     'anf-sibling-order', 'anf-assign-target-order', 'anf-dict-order', 'anf-slice-hoisted',
-    'anf-with-target-hoisted', 'anf-pending-lost',
+    'anf-target-hoisted', 'anf-operator-hoisted', 'anf-pending-lost', 'anf-starred-unpack-order',
 }
 
 
@@ -111,6 +111,8 @@ def shape_failures(orig, out, config):
             for f, c in positions(n):
                 if isinstance(c, ast.Slice) or anf._is_trivial(c):
                     continue
+                if isinstance(c, ast.Tuple) and any(isinstance(x, ast.Slice) for x in c.elts):
+                    continue      # the index tuple of an extended slice cannot stand alone
                 if isinstance(getattr(c, 'ctx', None), (ast.Store, ast.Del)):
                     continue
                 if t._should_transform(n, f, c):
@@ -144,7 +146,20 @@ def classify(orig, out, config, what):
             for a, b in zip(oi, ni):
                 if a.optional_vars is not None and not isinstance(a.optional_vars, ast.Name) and \
                         isinstance(b.optional_vars, ast.Name) and X.TMP_RE.match(b.optional_vars.id):
-                    return 'anf-with-target-hoisted'
+                    return 'anf-target-hoisted'
+        # `del (a, b[i])`: an element of a parenthesised del target extracted as if it were read
+        od = [t for d in ast.walk(orig) if isinstance(d, ast.Delete) for t in d.targets if isinstance(t, (ast.Tuple, ast.List))]
+        nd = [t for d in ast.walk(out) if isinstance(d, ast.Delete) for t in d.targets if isinstance(t, (ast.Tuple, ast.List))]
+        if len(od) == len(nd):
+            for a, b in zip(od, nd):
+                if len(a.elts) == len(b.elts) and any(not isinstance(x, ast.Name) and isinstance(y, ast.Name) and X.TMP_RE.match(y.id)
+                                                      for x, y in zip(a.elts, b.elts)):
+                    return 'anf-target-hoisted'
+        # an operator token extracted into an assignment (`tmp = @`): MatMult / And / Or are missing
+        # from _is_trivial; reachable only with patterns whose child slot is ANY
+        for n in ast.walk(out):
+            if isinstance(n, ast.Assign) and isinstance(n.value, (ast.operator, ast.boolop, ast.unaryop, ast.cmpop)):
+                return 'anf-operator-hoisted'
         # statements the transformer has no visitor for (annotated assignment, decorators, def defaults,
         # except-clause types, match subjects...) leave their hoisted statements pending: lost or misplaced
         assigned = {n.targets[0].id for n in ast.walk(out) if isinstance(n, ast.Assign) and len(n.targets) == 1
@@ -156,7 +171,7 @@ def classify(orig, out, config, what):
     m = G.Mirror(t._should_transform, anf._is_trivial)
     for s in orig.body:
         m.stmt(s)
-    for r in ('anf-assign-target-order', 'anf-dict-order', 'anf-sibling-order'):
+    for r in ('anf-assign-target-order', 'anf-dict-order', 'anf-starred-unpack-order', 'anf-sibling-order'):
         if r in m.reasons and what == 'order':
             return r
     return None
@@ -328,6 +343,9 @@ def _check(run):
         try:
             if any(X.TMP_RE.match(n.id) for n in ast.walk(orig) if isinstance(n, ast.Name)):
                 raise X.Untranslatable('gensym-shaped user name')
+            if cfg is not None and any(a is anf.REPLACE and (pt is anf.ANY or pt.child is anf.ANY) for pt, a in cfg) and \
+                    any(isinstance(n, (ast.MatMult, ast.BoolOp)) for n in ast.walk(orig)):
+                raise X.Untranslatable('operator tokens exposed to the configuration')
             p = X.export_block(orig.body)
             c = X.export_config(cfg, anf)
             if status == 'accepted':
